@@ -149,6 +149,9 @@ pub struct FlushInfo {
     pub n_records: usize,
     pub j_end: u64,
     pub waited: bool,
+    /// The store's own account of its chunks when `flush` was called: [start, end) in global
+    /// offsets, closed chunks first, the open chunk last.
+    pub chunks: Vec<(u64, u64)>,
 }
 
 #[derive(Debug, Clone, Default)]
@@ -181,6 +184,10 @@ pub enum Done {
     Reopened,
     Skipped,
     Probe { panicked: Option<String>, accepted: bool, desc: String },
+    /// The call failed because a caller-side I/O fault was injected into it (a chunk file could
+    /// not be created). What it left applied is taken from the store; the expected layout is
+    /// unknown from here on.
+    Faulted { err: String },
 }
 
 pub struct Run {
@@ -214,6 +221,7 @@ pub struct Run {
     pub last_purge: Option<(usize, LogId)>,
     /// Do not wait for / run the worker after caller ops (deep-queue scenario).
     pub no_auto_settle: bool,
+    pub caller_faults_seen: u32,
 }
 
 fn seg_pair(s: &Segment) -> (u64, u64) {
@@ -289,6 +297,7 @@ impl Run {
             records_after_op: vec![0],
             last_purge: None,
             no_auto_settle: false,
+            caller_faults_seen: 0,
         };
         r.open_store(cfg).map_err(|e| Fail::new("open-fresh", format!("open of a fresh directory failed: {e}")))?;
         Ok(r)
@@ -318,6 +327,7 @@ impl Run {
             records_after_op: vec![0],
             last_purge: None,
             no_auto_settle: false,
+            caller_faults_seen: 0,
         };
         r.max_id_seen = r.model.cur.log.values().map(|v| v.0).max().max(r.model.cur.st.last);
         if let Some(m) = r.max_id_seen {
@@ -476,7 +486,19 @@ impl Run {
         }
         match res {
             Ok(seg) => Ok(Done::Wrote { n: recs.len(), seg: seg_pair(&seg), expect_seg: exp }),
-            Err(e) => Err(Fail::new("legal-write-refused", format!("{what}: a write the sequential specification accepts returned Err: {e}"))),
+            Err(e) => {
+                let hit = trace::caller_faults_hit();
+                if hit > self.caller_faults_seen {
+                    // an injected caller-side failure: how much of the call was applied is the
+                    // store's business (I/O error paths are not specified); go on from what it shows
+                    self.caller_faults_seen = hit;
+                    self.classes.hit("caller_create_fault");
+                    self.model_exact = false;
+                    self.resync_model().map_err(|m| Fail::new("read-error", format!("{what} failed on an injected chunk-creation error ({e}); afterwards the store cannot be read: {m}")))?;
+                    return Ok(Done::Faulted { err: e.to_string() });
+                }
+                Err(Fail::new("legal-write-refused", format!("{what}: a write the sequential specification accepts returned Err: {e}")))
+            }
         }
     }
 
@@ -733,9 +755,12 @@ impl Run {
     /// Issue `flush` with a harness callback; returns the flush id.
     pub fn flush_call(&mut self, waited: bool) -> Result<u64, Fail> {
         let id = self.flushes.len() as u64;
-        let j_end = self.rl().stat().open_chunk.global_end;
+        let st = self.rl().stat();
+        let j_end = st.open_chunk.global_end;
+        let mut chunks: Vec<(u64, u64)> = st.closed_chunks.iter().map(|c| (c.global_start, c.global_end)).collect();
+        chunks.push((st.open_chunk.global_start, st.open_chunk.global_end));
         let n_records = self.model.records.len();
-        self.flushes.push(FlushInfo { id, n_records, j_end, waited });
+        self.flushes.push(FlushInfo { id, n_records, j_end, waited, chunks });
         trace::mark(Mark::FlushCall { flush: id, n_records, j_end });
         self.classes.hit("flush");
         let res = self.rl_mut().flush(Some(Cb::new(id)));
